@@ -60,7 +60,13 @@ func sliceArrayOperator(d *dataTreeNavigator, context Context, expressionNode *E
 			newResults = append(newResults, lhsNode.Content[i])
 		}
 
-		sliceArrayNode := lhsNode.CreateReplacement(SequenceNode, lhsNode.Tag, "")
+		sliceTag := lhsNode.Tag
+		if lhsNode.Kind != SequenceNode {
+			// slicing null, a scalar or a map still yields a sequence: do not
+			// hand on a tag (!!null, !!map ...) that contradicts the node kind
+			sliceTag = "!!seq"
+		}
+		sliceArrayNode := lhsNode.CreateReplacement(SequenceNode, sliceTag, "")
 		sliceArrayNode.AddChildren(newResults)
 		results.PushBack(sliceArrayNode)
 
